@@ -72,6 +72,14 @@ VP_HARNESS(h_config)
 #ifndef NTYPES
 #define NTYPES 4
 #endif
+#if PRE == 3      /* five PUs, a Core{PU3,PU4}: a refused Group can take PU0, skip PU1, take PU2 and then meet the Core (put-back with a hole) */
+#define NPU 5
+#define MMAX 31
+#else
+#define NPU 3
+#define MMAX 15
+#endif
+#define ALLPU ((1UL << NPU) - 1)
 static int ins_refused, ins_container, ins_sibling;
 /* one insertion with a CONCRETE type, cpuset and dont_merge attribute into a freshly built flat parent (tree surgery under
  * symbolic control does not conclude; the caller enumerates the cases as guarded concrete runs) */
@@ -91,49 +99,51 @@ static void insert_case(hwloc_obj_type_t ty, unsigned long m, int dm)
   t->state = HWLOC_TOPOLOGY_STATE_IS_LOADING;
   hwloc_obj_t root = t->levels[0][0];
   hwloc_alloc_root_sets(root);
-  hwloc_obj_t pu[3];
-  for (unsigned i = 0; i < 3; i++) { pu[i] = hwloc_alloc_setup_object(t, HWLOC_OBJ_PU, i); pu[i]->cpuset = vp_bm(1UL << i); hwloc__insert_object_by_cpuset(t, NULL, pu[i], NULL); }
-  VP_CHECK(root->first_child == pu[0] && pu[0]->next_sibling == pu[1] && pu[1]->next_sibling == pu[2] && !pu[2]->next_sibling, "three PUs inserted in order");
+  hwloc_obj_t pu[NPU];
+  for (unsigned i = 0; i < NPU; i++) { pu[i] = hwloc_alloc_setup_object(t, HWLOC_OBJ_PU, i); pu[i]->cpuset = vp_bm(1UL << i); hwloc__insert_object_by_cpuset(t, NULL, pu[i], NULL); }
+  VP_CHECK(root->first_child == pu[0] && !pu[NPU - 1]->next_sibling, "the PUs are inserted in order");
+  for (unsigned i = 0; i + 1 < NPU; i++) VP_CHECK(pu[i]->next_sibling == pu[i + 1], "the PUs are inserted in order");
 #if PRE
   /* an existing container {PU0,PU1} (PRE 1) or {PU1,PU2} (PRE 2): insertions that intersect it without inclusion must be
    * refused; with PRE 2 the new object may already have taken PU0 below it when it meets the Core: the put-back path */
-  hwloc_obj_t core = hwloc_alloc_setup_object(t, HWLOC_OBJ_CORE, 7); core->cpuset = vp_bm(PRE == 1 ? 0x3 : 0x6);
-  VP_CHECK(hwloc__insert_object_by_cpuset(t, NULL, core, NULL) == core && core->parent == root && core->first_child == pu[PRE == 1 ? 0 : 1], "a Core containing two PUs inserted");
+  hwloc_obj_t core = hwloc_alloc_setup_object(t, HWLOC_OBJ_CORE, 7); core->cpuset = vp_bm(PRE == 1 ? 0x3 : PRE == 2 ? 0x6 : 0x18);
+  VP_CHECK(hwloc__insert_object_by_cpuset(t, NULL, core, NULL) == core && core->parent == root && core->first_child == pu[PRE == 1 ? 0 : PRE == 2 ? 1 : 3], "a Core containing two PUs inserted");
 #endif
   /* snapshot of the two list levels */
-  hwloc_obj_t snap[4], gsnap[4]; unsigned ns = 0, ngs = 0;
-  for (hwloc_obj_t c = root->first_child; c && ns < 4; c = c->next_sibling) { snap[ns++] = c; for (hwloc_obj_t g = c->first_child; g && ngs < 4; g = g->next_sibling) gsnap[ngs++] = g; }
+  hwloc_obj_t snap[NPU + 1], gsnap[NPU + 1]; unsigned ns = 0, ngs = 0;
+  for (hwloc_obj_t c = root->first_child; c && ns < NPU + 1; c = c->next_sibling) { snap[ns++] = c; for (hwloc_obj_t g = c->first_child; g && ngs < NPU + 1; g = g->next_sibling) gsnap[ngs++] = g; }
   hwloc_obj_t o = hwloc_alloc_setup_object(t, ty, 0);
   o->cpuset = vp_bm(m);
   if (ty == HWLOC_OBJ_GROUP) o->attr->group.dont_merge = (unsigned char) dm;
   hwloc_obj_t r = hwloc__insert_object_by_cpuset(t, NULL, o, NULL);
   /* invariant of the (pre-connect) child lists */
   unsigned long u = 0; int prevfirst = -1; unsigned n = 0;
-  for (hwloc_obj_t c = root->first_child; c && n < 6; c = c->next_sibling, n++) {
+  for (hwloc_obj_t c = root->first_child; c && n < NPU + 3; c = c->next_sibling, n++) {
     unsigned long w = vp_w(c->cpuset);
     VP_CHECK(w && !(w & u), "children of an object have non-empty, pairwise disjoint cpusets");
     u |= w;
     int f = hwloc_bitmap_first(c->cpuset); VP_CHECK(f > prevfirst, "children are ordered by their first PU"); prevfirst = f;
     VP_CHECK(c->parent == root, "parent links are consistent");
     unsigned long cu = 0; for (hwloc_obj_t g = c->first_child; g; g = g->next_sibling) { VP_CHECK(g->parent == c && !(vp_w(g->cpuset) & cu) && !(vp_w(g->cpuset) & ~w), "grand-children are disjoint and included in their parent"); cu |= vp_w(g->cpuset); }
-    if (c->first_child) VP_CHECK(cu == (w & 7), "a container's cpuset is the union of its children (PUs 0..2)");
+    if (c->first_child) VP_CHECK(cu == (w & ALLPU), "a container's cpuset is the union of its children (the PUs)");
   }
-  VP_CHECK((u & 7) == 7 && n <= 4, "no PU is lost by the insertion");
+  VP_CHECK((u & ALLPU) == ALLPU && n <= NPU + 1, "no PU is lost by the insertion");
   if (r == NULL) {
     unsigned k = 0, gk = 0; int same = 1;
-    for (hwloc_obj_t c = root->first_child; c && k < 5; c = c->next_sibling, k++) { if (k >= ns || snap[k] != c || c->parent != root) same = 0; for (hwloc_obj_t g = c->first_child; g && gk < 5; g = g->next_sibling, gk++) if (gk >= ngs || gsnap[gk] != g || g->parent != c) same = 0; }
+    for (hwloc_obj_t c = root->first_child; c && k < NPU + 2; c = c->next_sibling, k++) { if (k >= ns || snap[k] != c || c->parent != root) same = 0; for (hwloc_obj_t g = c->first_child; g && gk < NPU + 2; g = g->next_sibling, gk++) if (gk >= ngs || gsnap[gk] != g || g->parent != c) same = 0; }
     VP_CHECK(same && k == ns && gk == ngs, "a refused insertion puts every child back: the lists are exactly as before");
     ins_refused = 1; }
-  else VP_CHECK(r == o || r == root || r == pu[0] || r == pu[1] || r == pu[2] || (PRE && (r == snap[0] || r == snap[1])), "the result is the inserted object or an existing object it was merged into");
+  else { int known = r == o || r == root || (PRE && (r == snap[0] || r == snap[1] || r == snap[NPU - 2])); for (unsigned i = 0; i < NPU; i++) if (r == pu[i]) known = 1;
+    VP_CHECK(known, "the result is the inserted object or an existing object it was merged into"); }
   if (r == o && m == 3) ins_container = 1;
   if (r == o && m == 8) ins_sibling = 1;
 }
 VP_HARNESS(h_insert)
 {
   static const hwloc_obj_type_t types[4] = { HWLOC_OBJ_GROUP, HWLOC_OBJ_PACKAGE, HWLOC_OBJ_CORE, HWLOC_OBJ_L2CACHE };
-  unsigned tsel = (unsigned) vp_in_range(0, NTYPES - 1); unsigned long m = vp_in64(); VP_ASSUME(m >= 1 && m <= 15); int dm = vp_in_bool();
+  unsigned tsel = (unsigned) vp_in_range(0, NTYPES - 1); unsigned long m = vp_in64(); VP_ASSUME(m >= 1 && m <= MMAX); int dm = vp_in_bool();
   int done = 0;
-  for (unsigned vt = 0; vt < NTYPES; vt++) for (unsigned long vm = 1; vm <= 15; vm++) for (int vd = 0; vd < 2; vd++)
+  for (unsigned vt = 0; vt < NTYPES; vt++) for (unsigned long vm = 1; vm <= MMAX; vm++) for (int vd = 0; vd < 2; vd++)
     if (tsel == vt && m == vm && dm == vd && (vd == 0 || types[vt] == HWLOC_OBJ_GROUP)) { insert_case(types[vt], vm, vd); done = 1; }
   VP_ASSUME(done);
 #if PRE
@@ -207,45 +217,11 @@ VP_HARNESS(h_sets)
 }
 
 /* ---- the complete real pipeline on a seed, checked by an independent checker ------------------------------------------------------- */
+#include "vp_wf.h"
 VP_HARNESS(h_seed_wf)
 {
   unsigned long tf = SEED == 4 ? HWLOC_TOPOLOGY_FLAG_INCLUDE_DISALLOWED : 0;
   struct hwloc_topology *t = vp_seed_build(SEED, tf);
-  hwloc_obj_t root = t->levels[0][0];
-  VP_CHECK(t->nb_levels >= 2 && t->level_nbobjects[0] == 1 && root->type == HWLOC_OBJ_MACHINE && !root->parent, "a single Machine root");
-  VP_CHECK(t->levels[t->nb_levels - 1][0]->type == HWLOC_OBJ_PU, "PUs form the deepest normal level");
-  VP_CHECK(t->slevels[HWLOC_SLEVEL_NUMANODE].nbobjs >= 1, "at least one NUMA node");
-  unsigned long seen_gp = 0, pus = 0;
-  for (unsigned d = 0; d < t->nb_levels; d++) {
-    hwloc_obj_t prev = NULL;
-    for (unsigned k = 0; k < t->level_nbobjects[d]; k++) {
-      hwloc_obj_t o = t->levels[d][k];
-      VP_CHECK(o->depth == (int) d && o->logical_index == k && o->prev_cousin == prev && (!prev || prev->next_cousin == o) && o->type == t->levels[d][0]->type, "depth, logical_index, cousin links and per-depth lookup agree");
-      VP_CHECK(hwloc_get_type_depth(t, o->type) == (int) d || hwloc_get_type_depth(t, o->type) == HWLOC_TYPE_DEPTH_MULTIPLE, "type_depth agrees with the level");
-      VP_CHECK(o->gp_index < 64 && !(seen_gp & (1UL << o->gp_index)), "gp_index values are unique"); seen_gp |= 1UL << o->gp_index;
-      unsigned long c = vp_w(o->cpuset), u = 0; unsigned a = 0; hwloc_obj_t pc = NULL;
-      for (hwloc_obj_t ch = o->first_child; ch && a < 6; ch = ch->next_sibling, a++) {
-        VP_CHECK(ch->parent == o && ch->sibling_rank == a && ch->prev_sibling == pc && o->children[a] == ch && !(vp_w(ch->cpuset) & u), "children links, sibling_rank, children[] and disjoint cpusets"); u |= vp_w(ch->cpuset); pc = ch; }
-      VP_CHECK(o->arity == a && (a == 0 || (o->last_child == pc && u == c)), "arity, last_child; a normal object's cpuset is the disjoint union of its normal children's");
-      if (o->type == HWLOC_OBJ_PU) { VP_CHECK(c == (1UL << o->os_index) && !(pus & c), "a PU's cpuset is exactly its own os_index, unique"); pus |= c; }
-      uint64_t mem = 0; unsigned ma = 0; unsigned long ln = 0;
-      for (hwloc_obj_t mc = o->memory_first_child; mc && ma < 4; mc = mc->next_sibling, ma++) { VP_CHECK(mc->parent == o && vp_w(mc->cpuset) == c, "memory children share their parent's cpuset"); mem += mc->total_memory; ln |= vp_w(mc->nodeset); }
-      VP_CHECK(o->memory_arity == ma, "memory_arity");
-      unsigned long cn = 0; for (hwloc_obj_t ch = o->first_child; ch; ch = ch->next_sibling) { mem += ch->total_memory; cn |= vp_w(ch->nodeset); }
-      VP_CHECK(o->total_memory == mem, "total_memory is the sum of NUMA local memory below");
-      unsigned long inh = o->parent ? vp_w(o->parent->nodeset) & ~0UL : 0;
-      VP_CHECK((vp_w(o->nodeset) & ~(ln | cn | inh)) == 0 && !(ln & ~vp_w(o->nodeset)) && !(cn & ~vp_w(o->nodeset)), "nodeset is made of inherited, locally attached and children NUMA nodes");
-      VP_CHECK(!(c & ~vp_w(o->complete_cpuset)) && !(vp_w(o->nodeset) & ~vp_w(o->complete_nodeset)), "sets included in their complete_ counterparts");
-      prev = o;
-    }
-  }
-  VP_CHECK(pus == vp_w(root->cpuset), "the PU level covers the root cpuset");
-  unsigned long nn = 0;
-  for (unsigned k = 0; k < t->slevels[HWLOC_SLEVEL_NUMANODE].nbobjs; k++) { hwloc_obj_t n = t->slevels[HWLOC_SLEVEL_NUMANODE].objs[k];
-    VP_CHECK(n->type == HWLOC_OBJ_NUMANODE && n->depth == HWLOC_TYPE_DEPTH_NUMANODE && n->logical_index == k && vp_w(n->nodeset) == (1UL << n->os_index) && !(nn & vp_w(n->nodeset)) && n->total_memory == n->attr->numanode.local_memory, "NUMA level: singleton nodesets with unique os_index, local memory"); nn |= vp_w(n->nodeset); }
-  VP_CHECK(nn == vp_w(root->nodeset), "the NUMA level covers the root nodeset");
-  VP_CHECK(!(vp_w(t->allowed_cpuset) & ~vp_w(root->cpuset)) && !(vp_w(t->allowed_nodeset) & ~vp_w(root->nodeset)), "allowed sets included in the root sets");
-  if (!tf) VP_CHECK(vp_w(t->allowed_cpuset) == vp_w(root->cpuset) && vp_w(t->allowed_nodeset) == vp_w(root->nodeset), "allowed sets equal the root sets without INCLUDE_DISALLOWED");
-  for (unsigned d = 0; d < t->nb_levels; d++) VP_CHECK(t->type_filter[t->levels[d][0]->type] != HWLOC_TYPE_FILTER_KEEP_NONE, "no object of a filtered-out type is present");
+  vp_wf_check(t, tf);
   VP_WITNESS("seed checked");
 }
